@@ -66,12 +66,11 @@ MC_BIG = [   # the exhaustive string enumerations of the two-coordinate formats 
 # quick tier: one exhaustive configuration of every format family and every defect model (TLC start-up dominates)
 MC_QUICK = [
     ("K61", "Sec1c", "strings", None), ("K61", "Sec1c", "elems", None), ("K61", "Sec1c", "machine", None),
-    ("P61", "Sec1c", "elems", P61_DEFECT), ("P61", "Sec1cStrict", "strings", None), ("P61", "Sec1cStrict", "elems", None),
+    ("P61", "Sec1c", "elems", P61_DEFECT), ("P61", "Sec1cStrict", "strings", None),
     ("PA31", "Pastac", "strings", None), ("PA31", "Pastac", "elems", None),
     ("E61", "Edc", "strings", None), ("E61", "Edc", "elems", None), ("E61P", "Edc", "strings", None),
     ("E61", "Montc", "elems", MONT), ("E61P", "Montc", "elems-modsign", None), ("E61", "Montu", "elems", MONT),
     ("B19", "Blsc", "strings", None), ("B19", "Blsc", "elems", None), ("B19", "Blsu", "strings", {"S_RejectsBad", "S_CodeConforms"}),
-    ("B19", "BlsuStrict", "elems", None),
     ("K61", "Affine", "strings", None), ("B19", "AffineX", "strings", {"S_Sound", "S_RejectsBad", "S_CodeConforms"}), ("B19", "AffineXStrict", "strings", None),
     ("GT23", "Gt", "strings", {"S_Sound", "S_RejectsBad", "S_CodeConforms"}), ("GT23", "GtStrict", "strings", None),
     ("F23", "Fbe", "strings", None), ("F23", "Fle", "strings", None), ("F29", "FbeTop", "strings", None), ("F23", "Fbered", "strings", None),
@@ -257,7 +256,7 @@ def run(chk):
             chk.sample({"job": "x-" + cname, "event": rows[len(rows) // 2]}, cap=10)
             return r, k
         return fn
-    xs = ["K61", "B19", "E61"] if quick else list(XCURVES)
+    xs = ["K61", "E61"] if quick else list(XCURVES)
     if want("x"):
         for cname in xs:
             tasks.append(("x:" + cname, x_task(cname)))
@@ -296,6 +295,9 @@ def run(chk):
         if names:
             tasks.append(("prod:" + job, prod_task(job, names)))
 
+    # long jobs first (production traces, the large string enumerations), the many small model runs fill the gaps
+    big = {"mc:%s-%s-%s" % (c, f, fam) for c, f, fam, _ in MC_BIG}
+    tasks.sort(key=lambda t: 0 if t[0].startswith("prod:") else 1 if t[0] in big else 2 if t[0].startswith("x:") else 3)
     res = vlib.parallel(tasks, max_workers=6)
 
     for c, f, fam, expected in mcs:
